@@ -14,6 +14,9 @@ DagNext == /\ l <= Len(TraceLog)
               /\ Flag(e, "C01.TopoPerm.iter2", e.iter2 = e.iter, <<e.n, e.par, e.iter, e.iter2>>)        \* iterating twice gives the same order
               /\ Flag(e, "C01.TopoPerm.status", TopoPerm(p, e.n, e.status), <<e.n, e.par, e.status>>)
               /\ Flag(e, "C01.TopoPerm.len", e.len = e.n, <<e.n, e.len>>)
+              /\ Flag(e, "C01.TopoPerm.lockstep", TopoPerm(p, e.n, e.lock), <<e.n, e.par, e.lock>>)      \* two iterators advanced in lock-step
+              /\ Flag(e, "C01.TopoPerm.nested", TopoPerm(p, e.n, e.nested), <<e.n, e.par, e.nested>>)    \* a full inner traversal inside every step
+              /\ Flag(e, "C01.TopoPerm.lazy", TopoPerm(p, e.n, e.lazy), <<e.n, e.par, e.lazy>>)          \* the body builds the runtime status
               /\ (IF e.iter = ModelOrder(p, e.n) THEN TRUE ELSE TLCSet(4, TLCGet(4) + 1))
               /\ TLCSet(3, TLCGet(3) + 1) /\ TLCSet(2, l)
            /\ l' = l + 1
